@@ -12,6 +12,8 @@ import RF.Driver.Shape
 import RF.Driver.Session
 import RF.Driver.Imports
 import RF.Driver.Config
+import RF.Driver.TokEquiv
+import RF.Driver.Idem
 /-!
 `rfmodel`: one request per line on stdin, one response per line on stdout.
 `?` is printed for a request no handler understands (the harness treats it as a protocol error,
@@ -32,7 +34,9 @@ def handlers : List (String → List String → Option String) :=
    RF.Driver.Shape.handle,
    RF.Driver.Session.handle,
    RF.Driver.Imports.handle,
-   RF.Driver.Config.handle]
+   RF.Driver.Config.handle,
+   RF.Driver.TokEquiv.handle,
+   RF.Driver.Idem.handle]
 
 def dispatch (line : String) : String :=
   match (line.trimAscii.toString.splitOn " ").filter (· ≠ "") with
